@@ -61,6 +61,9 @@ def run(tier, prop=PROP, module=MODULE, files=FILES):
         dist[rec["fam"]] = dist.get(rec["fam"], 0) + 1
         wb = envelopes.worst_baseline(base, direction, rec["method"], rec["fam"])
         site = rec["method"].split("/")[0]
+        if rec.get("int_vs_float", 0.0) > 1e-12:
+            ck.violation(dict(site=site, clause="integer-data", direction=direction), rec,
+                         f"{rec['method']}: integer counts are transformed differently from the same counts as float64 (relative {rec['int_vs_float']:.3g})")
         if isinstance(rec["error"], str):
             ck.violation(dict(site=site, clause="exception", direction=direction), rec, f"{rec['method']} raised {rec['error']}")
         elif wb is not None and not rec["error"] <= max(3.0 * wb, envelopes.FLOOR):
